@@ -107,6 +107,10 @@ pub struct IoCase {
     /// braid stacks: the server-side stream is the writer of the forward direction
     #[serde(default)]
     pub server_writes: bool,
+    /// the injected fault sits on the pipe from b to a instead of the one from a to b (with the
+    /// TLS braid and the server writing, that is the pipe the *client* reads the data from)
+    #[serde(default)]
+    pub fault_back: bool,
 }
 
 fn pattern(i: u64, salt: u64) -> u8 {
@@ -433,7 +437,12 @@ fn draw_case(r: &mut Rng, seed: u64) -> IoCase {
     IoCase {
         stack,
         seed,
-        mode_fwd: if r.chance(1, 5) { IoMode::plain() } else { IoMode::draw(r) },
+        mode_fwd: {
+            let mut m = if r.chance(1, 5) { IoMode::plain() } else { IoMode::draw(r) };
+            // a buffered transport under the writer: what is written leaves on flush
+            m.lazy_flush = stack != Stack::Duplex && r.chance(1, 4);
+            m
+        },
         mode_back: if r.chance(1, 2) { IoMode::plain() } else { IoMode::draw(r) },
         writes,
         shutdown: r.chance(4, 5),
@@ -444,6 +453,7 @@ fn draw_case(r: &mut Rng, seed: u64) -> IoCase {
         duplex_buf: *r.pick(&[1usize, 2, 64, 1024, 65536]),
         reverse_bytes: *r.weighted(&[(3, 0usize), (1, 1), (1, 300), (1, 5000)]),
         server_writes: r.bool(),
+        fault_back: faulty && stack == Stack::BraidTls && r.bool(),
     }
 }
 
@@ -508,7 +518,8 @@ impl Scenario for IoSim {
                 mode_fwd.cap = mode_fwd.cap.max(32 * 1024);
                 mode_back.cap = mode_back.cap.max(32 * 1024);
             }
-            let (a, b) = net::pair(case.seed, 1, mode_fwd, mode_back, case.fault.clone(), None);
+            let (f_ab, f_ba) = if case.fault_back { (None, case.fault.clone()) } else { (case.fault.clone(), None) };
+            let (a, b) = net::pair(case.seed, 1, mode_fwd, mode_back, f_ab, f_ba);
             pipes.push(a.tx.clone());
             pipes.push(a.rx.clone());
             let mut tls_handshake_failed = false;
@@ -797,6 +808,17 @@ impl Scenario for IoSim {
                 if side.shutdown_done && side.eof_seen == 0 && side.read_err.is_none() {
                     Self::viol(&mut out, "eof_not_propagated", case.stack, format!("{}: writer shut down but reader never saw end-of-stream", name));
                 }
+            } else if case.stack == Stack::BraidTls
+                && case.fault.as_ref().map(|x| x.kind) == Some(FaultKind::Eof)
+                // the pipe that carries this direction's data is the one that was cut
+                && ((name == "forward") == (case.server_writes == case.fault_back))
+                && side.eof_seen > 0
+                && side.read_err.is_none()
+                && n < expected.len()
+            {
+                // under TLS the end of the transport without a close_notify is a truncation, and must
+                // reach the reader as an error - never as a clean end-of-stream
+                Self::viol(&mut out, "truncation_seen_as_eof", case.stack, format!("{}: the transport under the TLS session ended after {} of {} bytes (no close_notify) and the reader was told end-of-stream, not an error", name, n, expected.len()));
             } else if reset && name == "forward" {
                 // an injected reset must surface as an error on the reading side, never as clean EOF
                 // (TLS maps a transport error to an error as well)
